@@ -262,7 +262,7 @@ type mon struct{}
 func (mon) Name() string { return "ipfilter" }
 
 func (mon) Level(string) (string, string) {
-	return "exploration", "operation sequences (exhaustive over a 12-op alphabet up to the stated length, replayed from empty and after 254/255/256 filler adds so that they run in list mode, across the list→map migration and in map mode; plus seeded random sequences over a small universe steered across the migration), every boundary address of every touched range probed in 4- and 16-byte form against a set-of-prefixes model; distinct_nontrivial = distinct (filler, sequence) pairs whose sequence changes the model at least once"
+	return "exploration", "operation sequences (exhaustive over a 12-op alphabet up to length 4 (quick) / 5 (thorough), replayed from empty and after 254/255/256 filler adds so that they run in list mode, across the list→map migration and in map mode; plus seeded random sequences over a small universe steered across the migration), every boundary address of every touched range probed in 4- and 16-byte form against a set-of-prefixes model; distinct_nontrivial = distinct (filler, sequence) pairs whose sequence changes the model at least once"
 }
 
 func (mon) Assumptions(string) []string {
@@ -281,7 +281,7 @@ func (mon) Plan(prop, tier string, seed int64) []drv.Shard {
 	var out []drv.Shard
 	maxLen, nrand, parts := 4, 2000, 16
 	if tier == "thorough" {
-		maxLen, nrand = 6, 200000
+		maxLen, nrand = 5, 30000
 	}
 	for p := 0; p < parts; p++ {
 		a, _ := json.Marshal(shardArgs{Kind: "exh", MaxLen: maxLen, Part: p, Parts: parts})
